@@ -36,6 +36,14 @@ def run(ctx):
                         "bound": "%d libraries" % r["tried"]})
     if r["violation"]:
         ctx.violation("bounded/m_compile", {"inputs": r["inputs"], "observed": r["violation"]}, True)
+    # bounded stand-in (never counted as proved): upstream's compiled regression on freshly generated wrappers
+    r2 = ctx.monitor("m_e2e", "psearch", 100, ctx.seed, 16)
+    ctx.bounded.append({"monitor": "m_e2e", "inputs_tried": r2["tried"], "violation": r2["violation"],
+                        "kind": "bounded: the 22 Fortran test programs of regression/run compiled and linked against wrappers "
+                                "generated now (gcc/g++ with ASan+UBSan, gfortran -fbounds-check) and run to their FRUIT verdict",
+                        "bound": "%d test programs" % r2["tried"]})
+    if r2["violation"]:
+        ctx.violation("bounded/m_e2e", {"inputs": r2["inputs"], "observed": r2["violation"]}, True)
     for k in ctx.known:
         if k["status"] == "open" and k.get("skip"):
             res = ctx.monitor("m_compile", "replay", json.dumps(k["witness"]))
